@@ -1,4 +1,5 @@
 import GoPlugin.Lemmas.MuxBroker
+import GoPlugin.Lemmas.MuxBrokerTimed
 /-
 C09 — Brokers stay live: unmatched, duplicate or late peers cannot wedge them
 (net/rpc `MuxBroker` part; the gRPC broker part is in `Props/C09g.lean`).
@@ -77,6 +78,26 @@ theorem progress (P : Params) (hP : P.Good) (s : State) (h : Reachable P s) :
   · intro sid q hr hq
     obtain ⟨i, hi⟩ := hc.queue_st sid (by simp [hq])
     simp [step, hr, hq, hlock, hi]
+
+/-- **The bound, in numbers**: a deadline is set once (`now + window`) and the clock only advances, so in every
+reachable state a waiting `Accept` is due at most `acceptWindow` ms from now and a `timeoutWait` at most
+`expiryWindow` ms from now — and once due, its step is enabled (`progress`).  With the extracted windows
+(5000 ms each, `Instance/C09.lean`) an unmatched `Accept` returns its error, and an unmatched dial's parked stream
+is closed (so the dialler's `Dial` fails), about five seconds after it started — plus scheduling latency, which the
+model does not bound. -/
+theorem due_within_window (P : Params) (hP : P.Good) (s : State) (h : Reachable P s) :
+    (∀ g (a : Acc), s.accs g = some a → a.pc = .wait →
+        a.deadline ≤ s.now + P.acceptWindow ∧ (a.deadline ≤ s.now → (step P s (.accTimeout g)).isSome)) ∧
+    (∀ t (w : Tw), s.tws t = some w → w.pc = .wait →
+        w.deadline ≤ s.now + P.expiryWindow ∧ (w.deadline ≤ s.now → (step P s (.twTimer t)).isSome)) := by
+  have ht := timed_of_reachable P s h
+  obtain ⟨p1, p2, _⟩ := progress P hP s h
+  exact ⟨fun g a hg hw => ⟨ht.acc g a hg, p1 g a hg hw⟩, fun t w hw hpc => ⟨ht.tw t w hw, p2 t w hw hpc⟩⟩
+
+/-- non-vacuity: an Accept at time 0, 3 s later it is still waiting and due at 5000 -/
+example : ∃ s, runFrom ⟨true, true, true, true, 1, 5000, 5000⟩ init [.accept 7, .tick 3000] = some s ∧
+    s.accs 0 = some ⟨7, 0, 5000, .wait⟩ ∧ s.now = 3000 := by
+  refine ⟨(runFrom ⟨true, true, true, true, 1, 5000, 5000⟩ init [.accept 7, .tick 3000]).get (by decide), by simp, by decide, by decide⟩
 
 theorem drain_run (s : State) (k : Nat) : (drain s k).run = s.run := by
   unfold drain
